@@ -12,6 +12,7 @@ UNITS = {
     "int_encoders": {"template": "contracts/int_encoders.vrs", "rlimit": 30},
     "conditions_parse": {"template": "contracts/conditions_parse.vrs", "rlimit": 60},
     "costs": {"template": "contracts/costs.vrs", "rlimit": 30},
+    "tree_hash": {"template": "contracts/tree_hash.vrs", "rlimit": 60},
     "streamable_core": {"template": "contracts/streamable_core.vrs", "rlimit": 60},
     "streamable_derived": {"generator": {"crates": ("chia-protocol",)}, "rlimit": 60},
 }
@@ -148,6 +149,19 @@ PROPS["C14"] = {
     "not_covered": [
         "String, [T;N], Program (serialized_length_from_bytes), BLS element decoders",
         "derived impls and hand-written versioned codecs (ProofOfSpace hash of a non-validating v2 proof is a reproduced defect, see DESIGN §7, not yet under contract)",
+    ],
+}
+
+PROPS["C17"] = {
+    "level": "proof",
+    "technique": "Verus contracts on the real tree_hash_atom/tree_hash_pair and the iterative tree_hash stack machine (extracted verbatim) against the recursive definition th(); exhaustive native evaluation of the 24 precomputed small-atom hashes",
+    "level_text": "Deductive proof for every allocator tree (any depth/width/sharing, since th is a function of the abstract tree): tree_hash returns sha256(1‖atom) / sha256(2‖th l‖th r) recursively, never underflows its stacks and terminates (measure 2*size). The small-atom shortcut is sound because the 24 table constants are recomputed exhaustively.",
+    "level_note": "Assumed: Sha256 ghost model over an uninterpreted sha256; clvmr Allocator::node contract. tree_hash_cached / TreeCache history invariant, tree_hash_from_bytes and curry_tree_hash are not yet under contract (not_covered).",
+    "components": [V("tree_hash"), N("native_tree_hash_precomputed", "tree_hash_precomputed")],
+    "assumptions": ["Sha256 ghost model, sha256 uninterpreted", "clvmr Allocator::node / atom contracts (shims/clvmr.rs)"],
+    "not_covered": [
+        "tree_hash_cached and the TreeCache invariant across calls (history quantifier)",
+        "tree_hash_from_bytes (rests on node_from_bytes_backrefs), curry_tree_hash (iter().rev() is outside Verus's subset), curry_and_treehash",
     ],
 }
 
